@@ -124,22 +124,31 @@ func runCBC(c cbcCase, r *pb.Rec) error {
 	if encLen != len(want) || cryptz.AESCBCEncryptLen(string(c.Plain)) != encLen {
 		return fmt.Errorf("AESCBCEncryptLen(%d bytes) = %d want %d", len(c.Plain), encLen, len(want))
 	}
-	key, iv := append([]byte(nil), c.Key...), append([]byte(nil), c.IV...)
+	// key, iv, plaintext and destination are windows into larger arrays whose neighbouring bytes the caller owns
+	key, keyIntact := g.WindowBytes(c.Key, len(c.Plain))
+	iv, ivIntact := g.WindowBytes(c.IV, len(c.Plain)+1)
 	var dst, plain []byte
+	plainIntact, dstIntact := func() error { return nil }, func() error { return nil }
 	if c.InPlaceEnc {
 		// documented in-place form: plaintext pre-grown by the padding length, dst reuses its memory
-		buf := make([]byte, len(c.Plain), encLen)
+		buf, bi := g.WindowBytes(make([]byte, encLen), len(c.Plain)+2)
 		copy(buf, c.Plain)
-		plain, dst = buf, buf[:encLen]
+		plain, dst, dstIntact = buf[:len(c.Plain)], buf[:encLen], bi
 	} else {
-		plain = append([]byte(nil), c.Plain...)
-		dst = make([]byte, encLen)
-		for i := range dst {
-			dst[i] = 0xA5 // dirty destination
+		plain, plainIntact = g.WindowBytes(c.Plain, len(c.Plain)+3)
+		dirty := make([]byte, encLen)
+		for i := range dirty {
+			dirty[i] = 0xA5 // dirty destination
 		}
+		dst, dstIntact = g.WindowBytes(dirty, len(c.Plain)+4)
 	}
 	if err := cryptz.AESCBCEncrypt(dst, plain, key, iv); err != nil {
 		return fmt.Errorf("AESCBCEncrypt error %v", err)
+	}
+	for what, f := range map[string]func() error{"key": keyIntact, "iv": ivIntact, "plaintext": plainIntact, "destination": dstIntact} {
+		if e := f(); e != nil {
+			return fmt.Errorf("AESCBCEncrypt (plaintext of %d bytes, in place %v), argument %s: %v", len(c.Plain), c.InPlaceEnc, what, e)
+		}
 	}
 	if !bytes.Equal(dst, want) {
 		return fmt.Errorf("AESCBCEncrypt(plain %x key %x iv %x inplace=%v) = %x want %x", c.Plain, c.Key, c.IV, c.InPlaceEnc, dst, want)
@@ -173,14 +182,19 @@ func runCBC(c cbcCase, r *pb.Rec) error {
 	if cryptz.AESCBCDecryptLen(want) != len(want) {
 		return fmt.Errorf("AESCBCDecryptLen wrong")
 	}
-	ct := append([]byte(nil), want...)
-	out := ct
+	ct, ctIntact := g.WindowBytes(want, len(want)+5)
+	out, outIntact := ct, func() error { return nil }
 	if !c.InPlaceDec {
-		out = make([]byte, cryptz.AESCBCDecryptLen(ct))
+		out, outIntact = g.WindowBytes(make([]byte, cryptz.AESCBCDecryptLen(ct)), len(want)+6)
 	}
 	n, err := cryptz.AESCBCDecrypt(out, ct, key, iv)
 	if err != nil || n != len(c.Plain) || !bytes.Equal(out[:n], c.Plain) {
 		return fmt.Errorf("AESCBCDecrypt(inplace=%v) = %d, %v (%x) want %x", c.InPlaceDec, n, err, out[:max(n, 0)], c.Plain)
+	}
+	for what, f := range map[string]func() error{"key": keyIntact, "iv": ivIntact, "ciphertext": ctIntact, "destination": outIntact} {
+		if e := f(); e != nil {
+			return fmt.Errorf("AESCBCDecrypt (ciphertext of %d bytes, in place %v), argument %s: %v", len(ct), c.InPlaceDec, what, e)
+		}
 	}
 	// the caller overwrites its key buffer in place with another key of the same length: the next call uses the new key
 	kb := append([]byte(nil), c.Key...)
